@@ -185,6 +185,16 @@ class HTMLTranslator(html4css1.HTMLTranslator):
 
         return super().starttag(node, tagname, suffix, **attributes)  # type: ignore[no-any-return]
 
+    def footnote_backrefs(self, node: nodes.Node) -> None:
+        # The ids are prefixed by starttag(), the links that go back
+        # from a footnote to its references must use the same names.
+        backrefs = node['backrefs']
+        node['backrefs'] = [ref if ref.startswith('rst-') else f'rst-{ref}' for ref in backrefs]
+        try:
+            super().footnote_backrefs(node)
+        finally:
+            node['backrefs'] = backrefs
+
     def visit_doctest_block(self, node: nodes.Node) -> None:
         pysrc = node[0].astext()
         if node.get('codeblock'):
